@@ -177,7 +177,7 @@ struct Gen
                 }
                 break;
             default:
-                f = {0, 0, 2};
+                f = {0, 0, 2, 5, 6};
                 if (tr.iter_forms)
                 {
                     f.push_back(3);
